@@ -500,7 +500,12 @@ fn hex(s: &str) -> String {{
     o
 }}
 
-fn render(touches: Vec<usize>) -> (String, String) {{
+fn render(touches: Vec<usize>, outside: Vec<usize>) -> (String, String) {{
+    // accessors that run outside of any provider (no RegisterCtx in scope): nothing may be embedded for them
+    if !outside.is_empty() {{
+        let o = Owner::new();
+        let _ = o.with(|| outside.iter().map(|&i| touch(i)).collect_view().to_html());
+    }}
     let slot: Arc<Mutex<Option<RegisterCtx<Locale>>>> = Arc::new(Mutex::new(None));
     let slot2 = slot.clone();
     let owner = Owner::new();
@@ -538,8 +543,10 @@ fn main() {{
                 Ok(_) => {{}}
             }}
             let l = line.trim();
-            let touches: Vec<usize> = l.split(',').filter(|s| !s.is_empty()).filter_map(|s| s.parse().ok()).collect();
-            let r = std::panic::catch_unwind(std::panic::AssertUnwindSafe(|| render(touches)));
+            // `7` = accessor 7 runs inside the provider, `o7` = it runs outside of any provider before the page is rendered
+            let touches: Vec<usize> = l.split(',').filter(|s| !s.is_empty() && !s.starts_with('o')).filter_map(|s| s.parse().ok()).collect();
+            let outside: Vec<usize> = l.split(',').filter(|s| s.starts_with('o')).filter_map(|s| s[1..].parse().ok()).collect();
+            let r = std::panic::catch_unwind(std::panic::AssertUnwindSafe(|| render(touches, outside)));
             match r {{
                 Ok((html, raw)) => println!("H {{}} {{}}", hex(&html), hex(&raw)),
                 Err(_) => println!("PANIC"),
@@ -677,3 +684,154 @@ def text_at(proj, ns, loc, path):
             return None
         t = node.get("sub") or []
     return node.get("text") if node and node["kind"] == "plain" else None
+
+
+# ---------------------------------------------------------------- string classes, pairwise coverage
+
+CLASS_SAMPLES = {            # one representative text per class (used by the class-matrix projects)
+    "quote": '"', "backslash": "\\", "c0": "\x01\n", "c1": "\x85", "nbsp": "\xa0", "zw": "‍", "u2028": " ",
+    "astral": "\U0001F600", "combining": "é", "empty": "", "close_script": "</script>", "comment": "<!--",
+}
+CLASSES = list(CLASS_SAMPLES)
+
+
+def classify(s):
+    """the classes of adversarial content a text belongs to"""
+    out = set()
+    if s == "":
+        out.add("empty")
+    if '"' in s:
+        out.add("quote")
+    if "\\" in s:
+        out.add("backslash")
+    if any(ord(c) < 32 or ord(c) == 127 for c in s):
+        out.add("c0")
+    if any(0x80 <= ord(c) < 0xA0 for c in s):
+        out.add("c1")
+    if "\xa0" in s:
+        out.add("nbsp")
+    if any(c in s for c in "​‌‍⁠﻿"):
+        out.add("zw")
+    if " " in s or " " in s:
+        out.add("u2028")
+    if any(ord(c) > 0xFFFF for c in s):
+        out.add("astral")
+    if any(0x300 <= ord(c) < 0x370 for c in s):
+        out.add("combining")
+    if "</script" in s.lower():
+        out.add("close_script")
+    if "<!--" in s:
+        out.add("comment")
+    return out
+
+
+def pairwise(cases, dims, infeasible):
+    """cases: list of {dim: set(values)}; dims: {dim: [values]}; infeasible(A, a, B, b) -> reason or None.
+    Returns the table for the evidence: counts per pair of values of two different dimensions, zero cells listed."""
+    names = list(dims)
+    counts = {}
+    for c in cases:
+        for i, A in enumerate(names):
+            for B in names[i + 1:]:
+                for a in c.get(A, ()):
+                    for b in c.get(B, ()):
+                        counts[(A, a, B, b)] = counts.get((A, a, B, b), 0) + 1
+    table, zero, infeas, total, covered = {}, [], {}, 0, 0
+    for i, A in enumerate(names):
+        for B in names[i + 1:]:
+            cell = {}
+            for a in dims[A]:
+                for b in dims[B]:
+                    total += 1
+                    n = counts.get((A, a, B, b), 0)
+                    cell["%s|%s" % (a, b)] = n
+                    why = infeasible(A, a, B, b)
+                    if why:
+                        infeas.setdefault(why, 0)
+                        infeas[why] += 1
+                        if n:
+                            infeas.setdefault("(reached although declared infeasible: %s=%s,%s=%s)" % (A, a, B, b), n)
+                    elif n:
+                        covered += 1
+                    else:
+                        zero.append("%s=%s x %s=%s" % (A, a, B, b))
+            table["%s x %s" % (A, B)] = cell
+    return {"dimensions": dims, "cells": total, "feasible": total - sum(v for k, v in infeas.items() if not k.startswith("(")),
+            "covered": covered, "zero_cells": zero, "infeasible_by_reason": infeas, "table": table}
+
+
+def missing_pairs(cases, dims, infeasible):
+    names = list(dims)
+    have = set()
+    for c in cases:
+        for i, A in enumerate(names):
+            for B in names[i + 1:]:
+                for a in c.get(A, ()):
+                    for b in c.get(B, ()):
+                        have.add((A, a, B, b))
+    miss = set()
+    for i, A in enumerate(names):
+        for B in names[i + 1:]:
+            for a in dims[A]:
+                for b in dims[B]:
+                    if (A, a, B, b) not in have and not infeasible(A, a, B, b):
+                        miss.add((A, a, B, b))
+    return miss
+
+
+def case_pairs(c, dims):
+    names = list(dims)
+    out = set()
+    for i, A in enumerate(names):
+        for B in names[i + 1:]:
+            for a in c.get(A, ()):
+                for b in c.get(B, ()):
+                    out.add((A, a, B, b))
+    return out
+
+
+MORE_NS = ["common", "home", "admin_panel", "a", "shop", "auth_flow", "b2", "zz"]
+
+
+def matrix_project(rng, use_ns, shift=0, n_units=12):
+    """a project in which every class of adversarial text is the FIRST string of some unit's table, a MIDDLE string of
+    another and the LAST string of a third; every unit has plain and interpolated keys at top level and in a subgroup,
+    and a key (`d5`) that only the default locale defines (other locales default to it)"""
+    if use_ns:
+        nl = 3
+        locales = rng.sample(LOCALE_POOL, nl)
+        namespaces = MORE_NS[:(n_units + nl - 1) // nl]
+    else:
+        locales = rng.sample(LOCALE_POOL, min(n_units, 6))
+        namespaces = None
+    units = {}
+    j = shift
+    for ns in (namespaces or [None]):
+        per = {}
+        for li, loc in enumerate(locales):
+            u = "%s%d" % ((ns or "p")[:2], li)
+            a, b, c = CLASSES[j % 12], CLASSES[(j + 4) % 12], CLASSES[(j + 8) % 12]
+
+            def txt(cls, tag):
+                return "" if cls == "empty" else CLASS_SAMPLES[cls] + tag + u
+            tree = [("a0", {"kind": "plain", "json": txt(a, "A"), "text": txt(a, "A")})]
+            if li == 0:
+                tree.append(("d5", {"kind": "plain", "json": "only default " + u, "text": "only default " + u}))
+            else:
+                tree.append(("d5", {"kind": "absent"}))
+            tree += [
+                ("m1", {"kind": "plain", "json": "fill " + u, "text": "fill " + u}),
+                ("m2", {"kind": "plain", "json": txt(b, "B"), "text": txt(b, "B")}),
+                ("m3", {"kind": "other", "json": "i1 %s {{ x }} i2 %s" % (u, u)}),
+                ("s4", {"kind": "sub", "sub": [
+                    ("k0", {"kind": "plain", "json": "sub " + u, "text": "sub " + u}),
+                    ("v1", {"kind": "other", "json": "s1 %s {{ x }} s2 %s" % (u, u)})]}),
+                ("z9", {"kind": "plain", "json": txt(c, "C"), "text": txt(c, "C")}),
+            ]
+            if b == "empty" or c == "empty":
+                # an empty middle/last text must not be de-duplicated against an empty first text: there is none here
+                pass
+            per[loc] = tree
+            j += 1
+        units[ns] = per
+    return Project(locales, namespaces, {}, units)
